@@ -60,6 +60,18 @@ def expat_name(name, as_attr=False):
     return n
 
 
+_TS = []
+_TS_N = [0]      # how many names went through tostring() in this process (history for replays)
+
+
+def _tostring():
+    if not _TS:
+        import xml.etree.ElementTree as ET
+        from html5lib.treebuilders import etree as E
+        _TS.append(E.getETreeModule(ET).tostring)
+    return _TS[0]
+
+
 def check_name(f, name, as_attr):
     with warnings.catch_warnings():
         warnings.simplefilter("ignore")
@@ -94,6 +106,17 @@ def check_name(f, name, as_attr):
             back2 = type(f)().fromXmlName(out)
         if back2 != name:
             return Verdict("fail", "a new InfosetFilter decodes %s (from %s) as %s" % (short(out), short(name), short(back2)), "not-reversible-new-object", nontrivial=True)
+        # the place where html5lib itself decodes: treebuilders/etree.py tostring() (start tag of an attribute-less element, attribute names)
+        ts = _tostring()
+        import xml.etree.ElementTree as ET
+        try:
+            _TS_N[0] += 1
+            txt = ts(ET.Element("a", {out: "v"})) if as_attr else ts(ET.Element(out))
+        except Exception as e:
+            return Verdict("fail", "etree tostring raised %r for the coerced name %s" % (e, short(out)), "tostring-exception:" + type(e).__name__, nontrivial=True)
+        want = ('<a %s="v">' % name) if as_attr else ("<%s>" % name)
+        if not txt.startswith(want):
+            return Verdict("fail", "etree tostring() writes %s for the coerced form of %s" % (short(txt, 60), short(name)), "tostring-not-decoded", nontrivial=True)
     return Verdict("pass", nontrivial=nontrivial, sig=sig64(name, as_attr))
 
 
@@ -105,7 +128,17 @@ def check_case(case):
             with warnings.catch_warnings():
                 warnings.simplefilter("ignore")
                 f.coerceElement(pre)
-        return check_name(f, case["name"], case.get("attr", False))
+        if case.get("tostring_before", 0) > _TS_N[0]:
+            # replay of a failure that needs history: that many distinct names had gone through tostring() in the process before
+            import xml.etree.ElementTree as ET
+            ts = _tostring()
+            for i in range(_TS_N[0], case["tostring_before"]):
+                ts(ET.Element("n%d" % i))
+            _TS_N[0] = case["tostring_before"]
+        v = check_name(f, case["name"], case.get("attr", False))
+        if v.status == "fail" and v.bucket.startswith("tostring"):
+            case.setdefault("tostring_before", _TS_N[0])
+        return v
     if kind == "pair":
         f = _filter()
         a, b = case["a"], case["b"]
@@ -188,6 +221,8 @@ def run_shard(desc, seed, tier):
                         pass
                     v = check_name(f, name, as_attr)
                     case = {"kind": "name", "name": name, "attr": as_attr}
+                    if v.status == "fail" and v.bucket.startswith("tostring"):
+                        case["tostring_before"] = _TS_N[0]
                     acc.add(case, v)
         acc.exhaustive = True
         acc.extra["bmp_codepoints"] = len(range(desc["part"], 0x10000, desc["of"]))
@@ -199,6 +234,8 @@ def run_shard(desc, seed, tier):
             as_attr = len(name) % 2 == 0
             v = check_name(f, name, as_attr)
             case = {"kind": "name", "name": name, "attr": as_attr}
+            if v.status == "fail" and v.bucket.startswith("tostring"):
+                case["tostring_before"] = _TS_N[0]
             acc.add(case, v)
             if not _PAT.search(name):
                 with warnings.catch_warnings():
